@@ -312,4 +312,144 @@ theorem retained_spec (mt : MemTopics) (rets : List Mqtt.Spec.Broker.Ret) (h : R
   unfold Mqtt.Spec.Broker.retainedFor
   exact List.Perm.refl _
 
+/-! ### the in-process API against the specification's held set -/
+
+theorem srvSub_held (b : B) (hinv : Inv b) (cb : Nat) (f : Bytes) (q : Nat) (hg : good f = true)
+    (held : List Mqtt.Spec.Broker.Held) (hh : HeldInv b.topics.sroot held) :
+    HeldInv (srvSub b cb f q).1.topics.sroot
+      (if (!validFilter f || decide (q > 2)) = true then held
+       else Mqtt.Spec.Broker.addHeld held cb f (min q Mqtt.Spec.Broker.maxQos)) := by
+  rw [(srvSub_char b cb f q).2]
+  have hp := subscribe_abs b.topics f q cb hinv.wf
+  rw [accepts_good f q hg] at hp
+  cases hv : validFilter f with
+  | false =>
+    simp only [hv, Bool.false_and, Bool.false_eq_true, ↓reduceIte] at hp
+    simp only [Bool.not_false, Bool.true_or, ↓reduceIte]
+    exact ⟨hp.trans hh.perm, hh.valid⟩
+  | true =>
+    by_cases hq : q ≤ 2
+    · have hq' : ¬ q > 2 := by omega
+      simp only [hv, hq, decide_true, Bool.and_self, ↓reduceIte] at hp
+      simp only [Bool.not_true, hq', decide_false, Bool.or_self, Bool.false_eq_true, ↓reduceIte]
+      rw [(Mqtt.Proofs.Topics.levels_valid f hg hv).1] at hp
+      refine ⟨(hp.trans (addEntry_perm _ _ _ _ _ hh.perm)).trans ?_, ?_⟩
+      · rw [addEntry_held]; exact List.Perm.refl _
+      · intro h hm
+        simp only [Mqtt.Spec.Broker.addHeld, List.mem_append, List.mem_filter, List.mem_singleton] at hm
+        rcases hm with hm | rfl
+        · exact hh.valid h hm.1
+        · exact hv
+    · have hq' : q > 2 := by omega
+      simp only [hv, hq, decide_false, Bool.and_false, Bool.false_eq_true, ↓reduceIte] at hp
+      simp only [Bool.not_true, hq', decide_true, Bool.or_true, ↓reduceIte]
+      exact ⟨hp.trans hh.perm, hh.valid⟩
+
+theorem srvUnsub_held (b : B) (hinv : Inv b) (cb : Nat) (f : Bytes) (hg : good f = true)
+    (held : List Mqtt.Spec.Broker.Held) (hh : HeldInv b.topics.sroot held) :
+    HeldInv (srvUnsub b cb f).1.topics.sroot (held.filter (fun h => !(h.owner == cb && h.filter == f))) := by
+  have hp := unsubscribe_abs b.topics f cb hinv.wf
+  refine ⟨?_, fun h hm => hh.valid h (List.mem_filter.mp hm).1⟩
+  show (abs (b.topics.unsubscribe f (some cb)).1.sroot).Perm _
+  refine hp.trans ?_
+  cases hv : validFilter f with
+  | true =>
+    obtain ⟨e1, e2⟩ := Mqtt.Proofs.Topics.levels_valid f hg hv
+    rw [e1, e2]
+    simp only [↓reduceIte]
+    rw [← delEntry_held]
+    exact delEntry_perm _ _ _ _ hh.perm
+  | false =>
+    rw [Mqtt.Proofs.Topics.levels_invalid f hg hv]
+    simp only [Bool.false_eq_true, ↓reduceIte]
+    have : held.filter (fun h => !(h.owner == cb && h.filter == f)) = held := by
+      rw [List.filter_eq_self]
+      intro h hm
+      have : h.filter ≠ f := by intro hx; rw [← hx, hh.valid h hm] at hv; exact absurd hv (by simp)
+      simp [this]
+    rw [this]
+    exact hh.perm
+
+/-! ### which events can change the retained trie -/
+
+theorem onPublish_topics (b : B) (m : Msg) : (onPublish b m).1.topics = (retainStep b m).1.topics := by
+  unfold onPublish
+  simp only
+  split
+  · rfl
+  · exact (fanout_state _ _ _).1
+
+/-- an event that carries no application message into the broker: everything
+except PUBLISH, PUBREL (which releases stored QoS 2 messages), DISCONNECT and
+connection end (which may publish the will) and the in-process `Publish` -/
+def carriesNoMessage : Ev → Bool
+  | .first _ _ _ => true
+  | .packet _ (.publish _) => false
+  | .packet _ (.pubrel _) => false
+  | .packet _ .disconnect => false
+  | .packet _ _ => true
+  | .close _ => false
+  | .srvPub _ => false
+  | .srvSub _ _ _ => true
+  | .srvUnsub _ _ => true
+
+theorem first_rroot (b : B) (hinv : Inv b) (c : Nat) (f : First) (a : Bool) :
+    (first b c f a).1.topics.rroot = b.topics.rroot := by
+  unfold first
+  split
+  · rfl
+  · rfl
+  · split
+    · rfl
+    · rfl
+    · split
+      · rfl
+      · simp only
+        split
+        · exact (resubscribe_frame c _ _ hinv.wf).2
+        · exact (resubscribe_frame c _ _ hinv.wf).2
+
+theorem packet_rroot (b : B) (hinv : Inv b) (c : Nat) (p : Packet)
+    (hp : carriesNoMessage (.packet c p) = true) : (packet b c p).1.topics.rroot = b.topics.rroot := by
+  unfold packet
+  split
+  · rfl
+  · split
+    · rfl
+    · split
+      · rfl
+      · rename_i cn _ s hs
+        cases p with
+        | publish pub => simp [carriesNoMessage] at hp
+        | pubrel id => simp [carriesNoMessage] at hp
+        | disconnect => simp [carriesNoMessage] at hp
+        | subscribe id ts =>
+          simp only
+          rw [(sendRetained_shape c _ _).2.2.1, setSess_topics]
+          exact (subscribeLoop_conns c ts b s [] []).2.2.2.1
+        | unsubscribe id ts =>
+          simp only [setSess_topics]
+          exact (unsubFold_frame c ts b.topics hinv.wf).2
+        | pubrec id => rfl
+        | pingreq => rfl
+        | puback _ => rfl
+        | pubcomp _ => rfl
+        | pingresp => rfl
+        | suback _ _ => rfl
+        | unsuback _ => rfl
+        | connack _ _ => rfl
+        | connectAgain => rfl
+
+theorem step_rroot (b : B) (hinv : Inv b) (e : Ev) (he : carriesNoMessage e = true) :
+    (step b e).1.topics.rroot = b.topics.rroot := by
+  cases e with
+  | first c f a => exact first_rroot b hinv c f a
+  | packet c p => exact packet_rroot b hinv c p he
+  | close c => simp [carriesNoMessage] at he
+  | srvPub p => simp [carriesNoMessage] at he
+  | srvSub cb f q =>
+    simp only [step, (srvSub_char b cb f q).2]
+    exact subscribe_rroot _ _ _ _ _
+  | srvUnsub cb f => rfl
+
 end Mqtt.Proofs.Broker
